@@ -12,6 +12,33 @@ static const struct { const char *name; f_xor fn; size_t nlen; } XORS[] = {
     { "stream_salsa2012_xor", crypto_stream_salsa2012_xor, 8 }, { "stream_salsa208_xor", crypto_stream_salsa208_xor, 8 },
     { "stream_xsalsa20_xor", crypto_stream_xsalsa20_xor, 24 }, { "crypto_stream_xor", crypto_stream_xor, 24 } };
 
+/* rejected (forged) input: the in-place call must behave like the disjoint one - same return value and, where the disjoint call leaves a defined
+ * output (the same bytes whatever the buffer held before), the same bytes; where the disjoint call does not touch its output, the shared buffer must be left as it was */
+static void forged_inplace(const cons *C, keyctx *kc, const unsigned char *ct, const unsigned char *tag, size_t len, size_t T, const unsigned char *ad, size_t adlen, const unsigned char *nonce)
+{
+    unsigned char *d1 = malloc(len + 64), *d2 = malloc(len + 64), *a = malloc(len + 64), *cc = malloc(len + 64), t2[64]; int v, form, r1, r2, ra; char k[200]; size_t i;
+    for (v = 0; v < 3; v++) {
+        if (v == 2 && len == 0) break;
+        memcpy(cc, ct, len); memcpy(t2, tag, T);
+        if (v == 0) t2[0] ^= 1; else if (v == 1) t2[T - 1] ^= 0x80; else cc[len / 2] ^= 4;
+        for (form = -1; form < C->nx; form++) {
+            if (form >= 0 && (strstr(C->x[form].name, "nacl"))) continue;
+            memset(d1, 0xaa, len); memset(d2, 0x55, len); memcpy(a, cc, len);
+            if (form < 0) { r1 = C->decd(d1, cc, len, t2, ad, adlen, nonce, kc); r2 = C->decd(d2, cc, len, t2, ad, adlen, nonce, kc); ra = C->decd(a, a, len, t2, ad, adlen, nonce, kc); }
+            else { r1 = C->x[form].dec(d1, cc, len, t2, ad, adlen, nonce, kc); r2 = C->x[form].dec(d2, cc, len, t2, ad, adlen, nonce, kc); ra = C->x[form].dec(a, a, len, t2, ad, adlen, nonce, kc); }
+            n_eval++; n_nontriv++;
+            snprintf(k, sizeof k, "%s/%s-forged-decrypt-inplace/len=%zu/variant=%d", C->name, form < 0 ? "detached" : C->x[form].name, len, v);
+            if (r1 == 0 || r2 == 0) continue;          /* acceptance of forgeries is judged by C02, not here */
+            if (ra != r1) { vf_fail(k, "in-place call returned %d, disjoint call %d", ra, r1); continue; }
+            if (len == 0) continue;
+            if (memcmp(d1, d2, len) == 0) { if (memcmp(a, d1, len)) vf_fail(k, "after a rejected call the shared buffer differs from what the disjoint call leaves in its output (first bytes %s vs %s)", vf_hex(a, len < 8 ? len : 8), vf_hex(d1, len < 8 ? len : 8)); }
+            else { int untouched = 1; for (i = 0; i < len; i++) if (d1[i] != 0xaa || d2[i] != 0x55) untouched = 0;
+                   if (untouched && memcmp(a, cc, len)) vf_fail(k, "the disjoint call leaves its output untouched on rejection but the in-place call modified the shared buffer"); }
+        }
+    }
+    free(d1); free(d2); free(a); free(cc);
+}
+
 /* (a) exact aliasing c == m */
 static void alias_len(long L)
 {
@@ -48,6 +75,7 @@ static void alias_len(long L)
         if (memcmp(a, d, len) || memcmp(taga, tagd, T)) { snprintf(k, sizeof k, "%s/detached-encrypt-inplace/len=%zu", C->name, len); vf_fail(k, "in-place differs"); }
         { int r = C->decd(a, a, len, taga, ad, adlen, nonce, &kc); n_eval++; n_nontriv++;
           if (r != 0 || memcmp(a, m, len)) { snprintf(k, sizeof k, "%s/detached-decrypt-inplace/len=%zu", C->name, len); vf_fail(k, "in-place decrypt wrong"); } }
+        if (len <= 1201 ? (len % 3 == 0 || len < 130) : 1) forged_inplace(C, &kc, d, tagd, len, T, ad, adlen, nonce);
         for (x = 0; x < C->nx; x++) {      /* extra forms with c == m */
             memcpy(a, m, len); memset(taga, 0, 32); C->x[x].enc(a, taga, a, len, ad, adlen, nonce, &kc); n_eval++; n_nontriv++;
             if (memcmp(a, d, len) || memcmp(taga, tagd, T)) { snprintf(k, sizeof k, "%s/%s-encrypt-inplace/len=%zu", C->name, C->x[x].name, len); vf_fail(k, "in-place differs"); }
